@@ -461,7 +461,7 @@ pub fn features(resolve: &Resolve, world: WorldId) -> Features {
     let w = &resolve.worlds[world];
     let mut imported = std::collections::BTreeSet::new();
     let mut exported = std::collections::BTreeSet::new();
-    let mut scan = |func: &wit_parser::Function, f: &mut Features| {
+    let scan = |func: &wit_parser::Function, f: &mut Features| {
         match func.kind {
             FunctionKind::AsyncFreestanding => f.async_func = true,
             FunctionKind::AsyncMethod(_) | FunctionKind::AsyncStatic(_) => {
@@ -608,6 +608,11 @@ pub fn excluded(b: Backend, variant: &str, case: &WorldCase, feat: &Features) ->
                         | "named-fixed-length-list.wit-async"
                 ),
             };
+            if b == Backend::Cpp && full == "issue-1598.wit" && hit {
+                return Some(
+                    "async (cpp.rs:56; the issue-1598.wit exemption at cpp.rs:50 only says that it compiles)".into(),
+                );
+            }
             hit.then(|| format!("should_fail_verify({full:?}) in crates/test/src/{}.rs", b.name()))
         }
         Source::Inline(_) => {
